@@ -37,7 +37,10 @@ RichConds ==
          \* the same second binding text (g1 = l1) after a DIFFERENT first one: a let's value depends on the rule's own
          \* earlier bindings, not on its text
          <<V("g1"), <<[n |-> "l1", c |-> At("A1")], [n |-> "g1", c |-> V("l1")]>> >>,
-         <<V("g1"), <<[n |-> "l1", c |-> Not(At("A2"))], [n |-> "g1", c |-> V("l1")]>> >> }
+         <<V("g1"), <<[n |-> "l1", c |-> Not(At("A2"))], [n |-> "g1", c |-> V("l1")]>> >>,
+         \* a binding that may FAIL followed by an independent one: only the failing binding becomes None
+         <<V("g1"), <<[n |-> "l1", c |-> At("AE")], [n |-> "g1", c |-> At("A2")]>> >>,
+         <<And(At("A1"), V("g1")), <<[n |-> "l1", c |-> At("AE")], [n |-> "g1", c |-> Not(At("A2"))]>> >> }
 CondLets == IF Rich THEN RichConds ELSE {<<c, NoLets>> : c \in PlainConds}
 
 \* (category, subcategory, tags, merchant-property) profiles; a rule needs a category or tags
